@@ -17,6 +17,7 @@ def install_all(reg):
     succession_diagram._install_skip2(reg)
     succession_diagram._install_skip3(reg)
     succession_diagram._install_skip4(reg)
+    succession_diagram._install_compare(reg)
     from . import attractors
     attractors.install(reg)
     attractors.install_sets(reg)
